@@ -22,6 +22,7 @@ EXPLANATION = (
     "envelope agree between writer and reader (R5). (R6) the statistics that reach the rebuilt Check went through the dtype-aware converter (role-based: the converted container is what is passed on); (R7) serialisers never write a MultiIndex property that aggregates over its levels (coerce, names) as an option of the parent; (R8) an engine dtype that computes `type` from its fields in __post_init__ and overrides __str__ prints self.type or every such field, so the alias written to YAML/JSON/script determines the dtype; (R9) to_script decides the Timestamp/Timedelta imports on text containing every rendered piece (columns, index, dataframe checks). " 
     " (R10) definite assignment: no function of the io / statistics modules reads a local that a branch-only path from its entry leaves unassigned (CFG may-analysis, optimistic about try bodies and loop bodies, correlated guards pruned) - an UnboundLocalError there would abort the round trip. " 
     " (R11) a hop that forwards component statistics through a key filter (allow-list / deny-list of attribute names) lets every attribute of the property's sets through. " 
+    " (R12) every `dtype` entry of a mapping returned by a serialiser is rendered with str() / the alias helper (a raw DataType object is not YAML / JSON serialisable). " 
     "NOT decided: textual idempotence of YAML, verdict equality on "
     "probe frames, dtype string aliases resolving at run time."
 )
